@@ -19,7 +19,9 @@ RULE = ("history cases: a sequence of 8-40 calls drawn from a catalogue of ~95 c
         "__defaults__/__kwdefaults__ of every pyrepseq function and method and of module-level data - a change triggers the probe suite of "
         "that function, (c) the canonicalised result (triplet multisets, arrays, frames, figure artist data and colour-bar ticks) must equal "
         "the value the same specification returns alone in a fresh interpreter (computed once per run, one sub-process per specification; "
-        "randomised specifications reseed NumPy immediately before the call on both sides). "
+        "randomised specifications reseed NumPy immediately before the call on both sides), (d) edited-object steps: after a call the caller's "
+        "data arguments are edited in place and passed again (same objects; for two-stage specifications the same constructed object) and the result "
+        "must equal the specification '<name>@edited' executed alone in a fresh interpreter (caches keyed by object identity). "
         "distinct_nontrivial = distinct histories plus distinct adjacent ordered pairs of specifications.")
 ASSUMPTIONS = ["history independence is judged on canonicalised values (order of unordered results, dtypes and container types are ignored)",
                "only NumPy's global RNG is reseeded (the property's wording); igraph's randomised community methods are not in the catalogue",
